@@ -22,6 +22,7 @@ import itertools
 import json
 
 from ..impl import pipeline_opts as po
+from ..impl import c16_interp as ci
 from ..translate import c16 as tr
 
 PROPERTY = "C16"
@@ -276,7 +277,7 @@ def gen_log_case(rng):
 
 def gen_cases(rng, tier):
     n_log = 3000 if tier == "quick" else 60000
-    return [gen_log_case(rng) for _ in range(n_log)] + gen_e2e(rng, tier) + gen_seq(rng, tier)
+    return [gen_log_case(rng) for _ in range(n_log)] + gen_e2e(rng, tier) + gen_seq(rng, tier) + ci.gen(rng, tier)
 
 
 def escalate(rng, case, tier):
@@ -337,6 +338,8 @@ def rails_obs(rails):
 
 
 def run_impl(case):
+    if case["kind"] == "interp":
+        return ci.run(case)
     if case["kind"] == "log":
         from nemoguardrails.logging.processing_log import compute_generation_log
 
@@ -366,6 +369,8 @@ def dialog_req(cfg, llm_text):
 
 
 def model_requests(case, obs):
+    if case["kind"] == "interp":
+        return [ci.request(case)]
     if case["kind"] == "log":
         return [{"m": "C16.genlog", "log": case["log"]}]
     cfg = case["cfg"]
@@ -402,6 +407,8 @@ def _rails_key(rails, full):
 
 
 def compare(case, obs, mouts):
+    if case["kind"] == "interp":
+        return ci.compare(case, obs, mouts[0])
     m = mouts[0]
     if case["kind"] == "log":
         if m["res"] != obs["res"]:
@@ -508,6 +515,8 @@ def well_shaped(alog):
 
 
 def oracle(case, obs):
+    if case["kind"] == "interp":
+        return ci.oracle(case, obs)
     if case["kind"] == "log":
         if obs["res"] != "ok" or not well_shaped(case["log"]):
             return None  # the property speaks about logs the pipeline produces
@@ -617,6 +626,8 @@ def signature(case, obs, msg):
     `state-loses-earlier-calls`: a conversation driven through `generate(..., state=...)` whose FIRST deviating call is
     the third or a later one, i.e. a call whose carried state was produced by a call that was itself given a state (that
     state holds only the events of that one call).  A deviation in the first or second call never gets this signature."""
+    if case.get("kind") == "interp":
+        return None
     if case.get("kind") == "seq" and case.get("via") == "state":
         for k, o in enumerate(obs.get("per_call", [])):
             if _oracle_e2e(call_case(case, k), o) or "exc" in o:
@@ -639,6 +650,8 @@ def signature(case, obs, msg):
 
 
 def nontrivial(case, obs):
+    if case["kind"] == "interp":
+        return bool(obs.get("calls")) or obs.get("llm_calls", 0) > 0
     if case["kind"] == "log":
         return any(e[0] in ("in", "out") for e in case["log"])
     if case["kind"] == "seq":
@@ -647,6 +660,8 @@ def nontrivial(case, obs):
 
 
 def tags(case, obs):
+    if case["kind"] == "interp":
+        return ci.tags(case, obs)
     if case["kind"] == "log":
         t = ["kind:log", "shape:" + case["shape"], "res:" + obs["res"]]
         if obs["res"] == "ok":
@@ -689,6 +704,9 @@ def tags(case, obs):
 
 
 def shrink(case):
+    if case["kind"] == "interp":
+        yield from ci.shrink(case)
+        return
     if case["kind"] == "log":
         ev = case["log"]
         for i in range(len(ev)):
